@@ -25,12 +25,18 @@ def _lines(out, n):
 
 
 IMPL_TIMEOUT = {'s': 1800}
+# While a failure that has been OBSERVED (with the harness's full operation watchdog, 240 s for the scenario cores) is
+# reproduced and minimised, the watchdog is shorter: an implementation that hangs would otherwise cost four minutes per
+# candidate - a quick check of such a tree took a quarter of an hour.  main sets it around those phases only.
+REPLAY_OP_TIMEOUT = {'v': None}
 
 
 def run_impl(ops, timeout=None, mem='4GiB'):
     """the real code (harness child process); a crash or hang ends the stream early"""
     timeout = timeout or IMPL_TIMEOUT['s']
     env = dict(GOENV, GOMEMLIMIT=mem)
+    if REPLAY_OP_TIMEOUT['v'] and not os.environ.get('CORR_OP_TIMEOUT'):
+        env['CORR_OP_TIMEOUT'] = REPLAY_OP_TIMEOUT['v']
     data = ('\n'.join(ops) + '\n').encode()
     # the library logs to stderr: keep it out of the stream
     rc, out = run(['/bin/sh', '-c', 'ulimit -v %d 2>/dev/null; exec "$0" run' % IMPL_AS_LIMIT_KB, CORR],
